@@ -495,7 +495,7 @@ func (bridge *ExprBridge) PreprocessLikeExpression(expression string) (string, e
 	// 使用正则表达式匹配LIKE模式
 	// 匹配: field LIKE 'pattern' 或 `field` LIKE 'pattern' (允许空模式)
 	// 支持反引号标识符和普通标识符
-	likePattern := `((?:` + "`" + `[^` + "`" + `]+` + "`" + `|\w+)(?:\.(?:` + "`" + `[^` + "`" + `]+` + "`" + `|\w+))*)\s+LIKE\s+'([^']*)'`
+	likePattern := `((?:` + "`" + `[^` + "`" + `]+` + "`" + `|\w+)(?:\.(?:` + "`" + `[^` + "`" + `]+` + "`" + `|\w+))*)\s+(NOT\s+)?LIKE\s+'([^']*)'`
 	re, err := regexp.Compile(likePattern)
 	if err != nil {
 		return expression, err
@@ -504,12 +504,13 @@ func (bridge *ExprBridge) PreprocessLikeExpression(expression string) (string, e
 	// 替换所有LIKE表达式
 	result := re.ReplaceAllStringFunc(expression, func(match string) string {
 		submatches := re.FindStringSubmatch(match)
-		if len(submatches) != 3 {
+		if len(submatches) != 4 {
 			return match // 保持原样
 		}
 
 		field := submatches[1]
-		pattern := submatches[2]
+		negated := submatches[2] != ""
+		pattern := submatches[3]
 
 		// 处理反引号标识符，去除反引号
 		if len(field) >= 2 && field[0] == '`' && field[len(field)-1] == '`' {
@@ -517,7 +518,12 @@ func (bridge *ExprBridge) PreprocessLikeExpression(expression string) (string, e
 		}
 
 		// 将LIKE模式转换为相应的函数调用
-		return bridge.convertLikeToFunction(field, pattern)
+		converted := bridge.convertLikeToFunction(field, pattern)
+		if negated {
+			// x NOT LIKE p negates x LIKE p, but is not true either when x is NULL
+			return fmt.Sprintf("(%s != nil && !(%s))", field, converted)
+		}
+		return converted
 	})
 
 	return result, nil
